@@ -3571,7 +3571,10 @@ def sup9(ctx):
         if lp is None:
             continue
         lhs_ids = {id(hirq.strip(y["lhs"])) for y in hirq.walk(lp) if y["e"] in ("assignop", "assign")}
-        if not any(y["e"] == "index" and hirq.strip(y["a"]).get("local") in tables and id(y) not in lhs_ids for y in hirq.walk(lp)):
+        reads = any(y["e"] == "index" and hirq.strip(y["a"]).get("local") in tables and id(y) not in lhs_ids for y in hirq.walk(lp))
+        # ... or hands it to a helper that does (`Self::adjust_for_len_change(&mut sp, &total_len_change)`)
+        reads = reads or any(y["e"] in ("call", "mcall") and any(hirq.strip(a_).get("e") == "path" and hirq.strip(a_).get("local") in tables for a_ in y["args"]) for y in hirq.walk(lp))
+        if not reads:
             continue
         n += 1
         # climb out of the `?`
